@@ -131,3 +131,61 @@ Proof.
   pose proof (H x (component_in ms x Hx)) as H1. rewrite forallb_forall in H1.
   pose proof (H1 y (component_in ms y Hy)) as H2. rewrite Heq in H2. cbn [implb] in H2. apply veqb_eq. exact H2.
 Qed.
+
+(* ---------- strings: the representation is a function of the denotation ---------- *)
+Lemma filter_all {A} (f : A -> bool) l : (forall x, In x l -> f x = true) -> filter f l = l.
+Proof.
+  induction l as [|x l IH]; intros H; cbn [filter]; [reflexivity|].
+  rewrite (H x (or_introl eq_refl)). f_equal. apply IH. intros y Hy. apply H. right. exact Hy.
+Qed.
+
+Lemma single_bucket ms b : ms <> [] -> (forall m, In m ms -> bucket_of m = b) -> bucketise ms = [(b, ms)].
+Proof.
+  intros Hne Hb. destruct (bucketise_partition ms) as [Hnd [Hvs Hall]].
+  assert (Hkey : forall b' vs', In (b', vs') (bucketise ms) -> b' = b /\ vs' = ms).
+  { intros b' vs' Hin. destruct (Hvs b' vs' Hin) as [Hf Hne']. destruct vs' as [|m vs']; [contradiction|].
+    assert (Hm : In m (filter (in_bucket b') ms)) by (rewrite <- Hf; left; reflexivity).
+    apply filter_In in Hm. destruct Hm as [Hm Hmb]. unfold in_bucket in Hmb. apply bucket_eq_eq in Hmb.
+    rewrite (Hb m Hm) in Hmb. subst b'. split; [reflexivity|]. rewrite Hf. apply filter_all.
+    intros x Hx. unfold in_bucket. rewrite (Hb x Hx). apply bucket_eq_refl. }
+  destruct (bucketise ms) as [|[b1 vs1] rest] eqn:E.
+  - destruct ms as [|m ms']; [contradiction|]. exfalso. apply (Hall m (or_introl eq_refl)).
+  - destruct (Hkey b1 vs1 (or_introl eq_refl)) as [-> ->].
+    destruct rest as [|[b2 vs2] rest]; [reflexivity|].
+    destruct (Hkey b2 vs2 (or_intror (or_introl eq_refl))) as [-> _].
+    cbn [map fst] in Hnd. inversion Hnd as [|? ? Hni _]; subst. exfalso. apply Hni. left. reflexivity.
+Qed.
+
+Lemma mkset_same_elems l m : mkset l = mkset m -> forall x, In x l <-> In x m.
+Proof. unfold mkset. intros H x. inversion H as [H1]. rewrite <- (vsort_in l x), <- (vsort_in m x), H1. reflexivity. Qed.
+
+Lemma rep_equal_str_refl off cells holes : rep_equal (RStr off cells holes) (RStr off cells holes) = true.
+Proof. cbn [rep_equal]. rewrite !Z.eqb_refl, zlist_eq_refl. reflexivity. Qed.
+
+(* two well-formed lists of character tuples with the same denotation are built to the very same String (offset, runes,
+   hole count), whatever the insertion order and repetitions - so the two results are Equal *)
+Theorem string_representation_function_of_denotation ms ms' :
+  ms <> [] -> all_chars ms -> all_chars ms' ->
+  (forall a c c', In (RTupChar a c) ms -> In (RTupChar a c') ms -> c = c') ->
+  mkset (map abs ms) = mkset (map abs ms') ->
+  build ms = build ms' /\ exists r, build ms = BOk r /\ build ms' = BOk r /\ rep_equal r r = true.
+Proof.
+  intros Hne Hall Hall' Hcoll Hden.
+  assert (Hsame : forall m, In m ms <-> In m ms').
+  { assert (G : forall l l', (forall m, In m l -> exists a c, m = RTupChar a c /\ 0 <= c) ->
+                  (forall m, In m l' -> exists a c, m = RTupChar a c /\ 0 <= c) ->
+                  (forall x, In x (map abs l) -> In x (map abs l')) -> forall m, In m l -> In m l').
+    { intros l l' Hl Hl' Hsub m Hm. destruct (Hl m Hm) as [a [c [-> _]]].
+      assert (Hx : In (abs (RTupChar a c)) (map abs l')) by (apply Hsub; apply in_map; exact Hm).
+      apply in_map_iff in Hx. destruct Hx as [m' [E Hm']]. destruct (Hl' m' Hm') as [a' [c' [-> _]]].
+      cbn [abs] in E. unfold vpair, vint in E. inversion E; subst. exact Hm'. }
+    intros m. split; apply G; try assumption; intros x Hx; apply (mkset_same_elems _ _ Hden); exact Hx. }
+  assert (Hne' : ms' <> []).
+  { destruct ms as [|m0 ms0]; [contradiction|]. intros E. subst ms'. apply (proj1 (Hsame m0)). left. reflexivity. }
+  assert (Hb : forall l, (forall m, In m l -> exists a c, m = RTupChar a c /\ 0 <= c) -> forall m, In m l -> bucket_of m = BChar).
+  { intros l Hl m Hm. destruct (Hl m Hm) as [a [c [-> _]]]. reflexivity. }
+  unfold build. rewrite (single_bucket ms BChar Hne (Hb ms Hall)), (single_bucket ms' BChar Hne' (Hb ms' Hall')).
+  cbn [finish_bucket]. rewrite (finish_string_function_of_members ms ms' Hne Hall Hall' Hcoll Hsame).
+  split; [reflexivity|]. exists (finish_string ms'). split; [reflexivity|]. split; [reflexivity|].
+  unfold finish_string. destruct ms' as [|v0 vs0]; [contradiction|]. cbv beta iota zeta. apply rep_equal_str_refl.
+Qed.
